@@ -3,7 +3,7 @@ The traversal reaches every syntactic position: if `b` occurs in `a` at any dept
 traversal emits for `b` form a contiguous segment of the nodes it emits for `a`.
 -/
 import Selene.Lints.TraverseB
-namespace Selene.Lints
+namespace Selene.LintsB
 open Selene.Lua
 
 theorem inf_l {α : Type} {x a b : List α} (h : x <:+: a) : x <:+: a ++ b := by
@@ -176,4 +176,4 @@ where
       simp [StmtList.toList] at h
       rw [h.1, toList_inj a b h.2]
 
-end Selene.Lints
+end Selene.LintsB
